@@ -606,7 +606,9 @@ impl<'a, B: BitmapSlice> VolatileSlice<'a, B> {
         // operations such as copy with read_volatile and write_volatile?
         unsafe {
             let count = min(self.size, slice.size);
-            copy(self.addr, slice.addr, count);
+            let src = self.ptr_guard();
+            let dst = slice.ptr_guard_mut();
+            copy_guarded(self.addr, &src, slice.addr, &dst, count);
             slice.bitmap.mark_dirty(0, count);
         }
     }
@@ -1254,7 +1256,9 @@ where
         // operations such as copy with read_volatile and write_volatile?
         unsafe {
             let count = min(self.len() * self.element_size(), slice.size);
-            copy(self.addr, slice.addr, count);
+            let src = self.ptr_guard();
+            let dst = slice.ptr_guard_mut();
+            copy_guarded(self.addr, &src, slice.addr, &dst, count);
             slice.bitmap.mark_dirty(0, count);
         }
     }
@@ -1320,6 +1324,35 @@ impl<'a, B: BitmapSlice> From<VolatileSlice<'a, B>> for VolatileArrayRef<'a, u8,
         // SAFETY: Safe because the result has the same lifetime and points to the same
         // memory as the incoming VolatileSlice.
         unsafe { VolatileArrayRef::with_bitmap(slice.addr, slice.len(), slice.bitmap, slice.mmap) }
+    }
+}
+
+/// Copies `count` bytes from `src` to `dst` with `memmove` semantics. `src_addr` and `dst_addr`
+/// are the addresses stored in the accessors the guards were taken from.
+///
+/// # Safety
+///
+/// Both guards must cover at least `count` bytes.
+unsafe fn copy_guarded(
+    src_addr: *const u8,
+    src: &PtrGuard,
+    dst_addr: *mut u8,
+    dst: &PtrGuardMut,
+    count: usize,
+) {
+    if src.as_ptr() == src_addr && dst.as_ptr() == dst_addr {
+        // Mapped in place: the pointers themselves tell whether the ranges overlap.
+        copy(src.as_ptr(), dst.as_ptr(), count);
+    } else if (dst_addr as usize) <= (src_addr as usize) {
+        // Temporarily mapped at unrelated addresses (memory mapped on demand): overlapping ranges
+        // alias without the pointers showing it, so the stored addresses pick the direction.
+        for i in 0..count {
+            write_volatile(dst.as_ptr().add(i), read_volatile(src.as_ptr().add(i)));
+        }
+    } else {
+        for i in (0..count).rev() {
+            write_volatile(dst.as_ptr().add(i), read_volatile(src.as_ptr().add(i)));
+        }
     }
 }
 
